@@ -442,9 +442,9 @@ fn ebv(t: &T) -> Result<bool, ()> {
     Err(())
 }
 /// Ok(Ok(term)) value, Ok(Err(())) SPARQL evaluation error, Err(..) the oracle cannot decide
-fn ev(e: &Ex, mu: &Mu) -> Result<Result<T, ()>, OErr> {
-    macro_rules! tryv { ($x:expr) => { match ev($x, mu)? { Ok(v) => v, Err(()) => return Ok(Err(())) } } }
-    let ebv_of = |e: &Ex| -> Result<Result<bool, ()>, OErr> { Ok(match ev(e, mu)? { Ok(v) => ebv(&v), Err(()) => Err(()) }) };
+fn ev(e: &Ex, mu: &Mu, ds: &Ds, g: &Option<T>) -> Result<Result<T, ()>, OErr> {
+    macro_rules! tryv { ($x:expr) => { match ev($x, mu, ds, g)? { Ok(v) => v, Err(()) => return Ok(Err(())) } } }
+    let ebv_of = |e: &Ex| -> Result<Result<bool, ()>, OErr> { Ok(match ev(e, mu, ds, g)? { Ok(v) => ebv(&v), Err(()) => Err(()) }) };
     Ok(match e {
         Ex::Var(v) => mu.get(v).cloned().ok_or(()),
         Ex::Const(t) => Ok(t.clone()),
@@ -491,7 +491,14 @@ fn ev(e: &Ex, mu: &Mu) -> Result<Result<T, ()>, OErr> {
                 None => Err(()),
             }
         }
-        Ex::Exists(_) => return Err(OErr::Undetermined("EXISTS".into())),
+        // 18.6 Exists: true iff eval(D(G), substitute(P, mu)) is non-empty, G the ACTIVE graph.  For patterns made of
+        // BGPs, UNION and GRAPH only, substitution = keeping the solutions of P that are compatible with mu
+        Ex::Exists(p) => {
+            fn simple(p: &Pat) -> bool { match p { Pat::Bgp(_) => true, Pat::Union(l, r) => simple(l) && simple(r), Pat::Graph(_, i) => simple(i), _ => false } }
+            if !simple(p) { return Err(OErr::Undetermined("EXISTS over a pattern with FILTER/BIND/...".into())) }
+            let sols = eval(p, ds, g)?;
+            Ok(tbool(sols.iter().any(|nu| nu.iter().all(|(v, t)| mu.get(v).map_or(true, |x| x == t)))))
+        }
         Ex::Other(n) => return Err(OErr::Undetermined(format!("expression {n}"))),
     })
 }
@@ -501,7 +508,7 @@ fn eval(p: &Pat, ds: &Ds, g: &Option<T>) -> Result<Vec<Mu>, OErr> {
         Pat::Bgp(ps) => bgp_solutions(ps, &ds.graph(g)),
         Pat::Filter(e, i) => {
             let mut out = vec![];
-            for mu in eval(i, ds, g)? { if let Ok(v) = ev(e, &mu)? { if ebv(&v) == Ok(true) { out.push(mu) } } }
+            for mu in eval(i, ds, g)? { if let Ok(v) = ev(e, &mu, ds, g)? { if ebv(&v) == Ok(true) { out.push(mu) } } }
             out
         }
         Pat::Union(l, r) => { let mut a = eval(l, ds, g)?; a.extend(eval(r, ds, g)?); a }
@@ -520,7 +527,7 @@ fn eval(p: &Pat, ds: &Ds, g: &Option<T>) -> Result<Vec<Mu>, OErr> {
             let mut out = vec![];
             for mut mu in eval(i, ds, g)? {
                 if mu.contains_key(v) { return Err(OErr::Undetermined("Extend on a bound variable".into())) }
-                if let Ok(t) = ev(e, &mu)? { mu.insert(v.clone(), t); }
+                if let Ok(t) = ev(e, &mu, ds, g)? { mu.insert(v.clone(), t); }
                 out.push(mu);
             }
             out
@@ -711,6 +718,11 @@ impl<'a> Gen<'a> {
             1 => format!("!({})", self.atom_expr(&v)),
             // operands that may raise a type error (IRI < number, unbound variable): section 17.2 three-valued logic
             2 | 3 => { let w = self.var(); let (a, b) = (self.atom_expr(&v), self.atom_expr(&w)); format!("({a}) {} ({b})", self.r.ps(&["||", "&&"])) }
+            4 => { // EXISTS / NOT EXISTS over a small pattern mentioning the variable; the ACTIVE graph matters
+                let pat = match self.r.below(7) {
+                    0 => format!("?{v} <tag:p> ?ex1"), 1 => format!("?ex1 ?ex2 ?{v}"), 2 => format!("<tag:a> <tag:p> ?{v}"), 3 => format!("?{v} ?ex1 ?ex2 . ?ex2 <tag:p> ?ex3"),
+                    4 => format!("GRAPH <tag:g1> {{ ?{v} ?ex1 ?ex2 }}"), 5 => format!("GRAPH ?exg {{ ?{v} <tag:p> ?ex2 }}"), _ => format!("{{ ?{v} <tag:p> ?ex1 }} UNION {{ ?ex1 <tag:q> ?{v} }}") };
+                format!("{}EXISTS {{ {pat} }}", self.r.ps(&["", "NOT "])) }
             _ => self.atom_expr(&v),
         }
     }
@@ -853,6 +865,15 @@ fn directed() -> Vec<(&'static str, usize, String)> {
         ("unsupported", 1, "SELECT * { { ?s <tag:p> ?o } UNION { ?s <tag:p> ?o MINUS { ?s <tag:q> ?o } } }".into()),
         ("unsupported", 1, "CONSTRUCT { ?s ?p ?o } WHERE { ?s ?p ?o }".into()),
         ("unsupported", 1, "DESCRIBE <tag:a>".into()),
+        // EXISTS is evaluated against the active graph (18.6)
+        ("exists", 1, "SELECT * { ?s <tag:p> ?o FILTER EXISTS { ?o <tag:p> ?z } }".into()),
+        ("exists", 1, "SELECT * { ?s <tag:p> ?o FILTER NOT EXISTS { GRAPH ?g { ?s <tag:q> ?w } } }".into()),
+        ("exists", 1, "ASK { ?s ?p ?o FILTER EXISTS { GRAPH <tag:g1> { ?s ?p ?o } } }".into()),
+        ("exists-active-graph", 1, "SELECT * { GRAPH <tag:g2> { ?s <tag:q> ?o FILTER EXISTS { ?s <tag:p> ?z } } }".into()),
+        ("exists-active-graph", 1, "SELECT * { GRAPH ?g { ?s ?p ?o FILTER NOT EXISTS { ?s <tag:q> ?z } } }".into()),
+        ("exists-active-graph", 1, "SELECT * { GRAPH ?g { ?s ?p ?o FILTER EXISTS { ?s <tag:q> ?z } } }".into()),
+        ("exists-active-graph", 1, "SELECT * { GRAPH <tag:g1> { ?s ?p ?o FILTER EXISTS { <tag:b> <tag:p> <tag:c> } } }".into()),
+        ("exists-active-graph", 1, "SELECT * { GRAPH ?g { ?s <tag:p> ?o BIND(EXISTS { ?s <tag:q> ?z } AS ?e) } }".into()),
         // an unsupported operator hidden inside EXISTS (expressions are outside the Coq model)
         ("exists-hides-not-implemented", 1, "SELECT * { ?s <tag:p> ?o FILTER EXISTS { ?o <tag:p> ?z OPTIONAL { ?z <tag:p> ?w } } }".into()),
     ]
